@@ -42,6 +42,9 @@ func (monC06) TaskEnd(s *Sim, t *Task) {
 	var written *edsv1.ExtendedDaemonSetReplicaSetStatus
 	var endAt time.Time
 	for _, c := range v.StatusWrites {
+		if c.Kind == KERS && c.Err != nil {
+			return // the status could not be written (e.g. the replica set was deleted meanwhile)
+		}
 		if c.Kind == KERS && c.Err == nil {
 			o := &edsv1.ExtendedDaemonSetReplicaSet{}
 			_ = json.Unmarshal(c.Out, o)
